@@ -9,7 +9,6 @@ import (
 	"sort"
 	"strings"
 
-
 	"verif/sa/internal/core"
 	"verif/sa/internal/flow"
 	"verif/sa/internal/tf"
